@@ -146,12 +146,14 @@ CompFields(k) == LET e == Ty(Reg, k.id) IN IF k.variant = -1 THEN e.def.fields E
 CompName(k) == LET e == Ty(Reg, k.id) IN IF k.variant = -1 THEN Ident(e.path) ELSE e.def.variants[k.variant + 1].name
 OwnItem(k) == FindItem(Root, <<S.root>> \o Ty(Reg, k.id).path)
 \* the enum's / struct's own field list in the generated module
-OwnFields(k) == LET it == OwnItem(k) IN IF k.variant = -1 THEN RealFields(it.fields) ELSE RealFields(it.variants[k.variant + 1].fields)
+\* (the item found at the path may belong to another, differently shaped type of the same path: guard every index)
+VariantThere(k) == k.variant = -1 \/ (OwnItem(k).kind = "enum" /\ k.variant + 1 <= Len(OwnItem(k).variants))
+OwnFields(k) == LET it == OwnItem(k) IN IF ~VariantThere(k) THEN <<>> ELSE IF k.variant = -1 THEN RealFields(it.fields) ELSE RealFields(it.variants[k.variant + 1].fields)
 \* Cow is transparent: a Cow of an unsigned integer is an unsigned integer on the wire and in the generated type
 SingleUnsigned(fields) == Len(fields) = 1 /\ HasId(Reg, UnCow(Reg, fields[1].ty)) /\ Ty(Reg, UnCow(Reg, fields[1].ty)).def.k = "prim"
                           /\ Ty(Reg, UnCow(Reg, fields[1].ty)).def.p \in UnsignedPrims
 C18_Check(k, withFaithful) ==
-  /\ k.res = "ok" /\ k.parse_ok
+  /\ k.res = "ok" /\ k.parse_ok /\ VariantThere(k)
   /\ k.item.kind = "struct" /\ k.item.name = CompName(k) /\ Len(k.item.generics) = 0
   /\ Len(k.item.fields) = Len(OwnFields(k))
   /\ \A j \in DOMAIN k.item.fields :
@@ -174,7 +176,10 @@ C18_BadOnlyByConflation == {i \in C18_Bad : \/ Run.composites[i].id \in BadlyKep
 (* ---- C07: substituted paths are neither defined nor referenced; occurrences are parameter-correct ---- *)
 AllTys == FlattenSeq([k \in DOMAIN AllItems(Root) |-> ItemFieldTys(AllItems(Root)[k].it)])
 C07_Failed ==
-  IF ~GenOk \/ Len(S.subs) = 0 THEN {}
+  IF Len(S.subs) = 0 THEN {}
+  \* valid rules over struct/enum paths never make generation or path resolution fail
+  ELSE IF Run.gen.res \notin {"ok", "DuplicateTypePath"} \/ \E id \in Ids(Reg) : Run.paths[id + 1].res = "panic" THEN {"GeneratesWithRules"}
+  ELSE IF ~GenOk THEN {}
   ELSE (IF \A r \in DOMAIN S.subs : FindItem(Root, <<S.root>> \o S.subs[r].src.segs).kind = "none" THEN {} ELSE {"NoItem"})
        \cup (IF \A r \in DOMAIN S.subs : /\ \A i \in DOMAIN AllTys : ~RefersTo(AllTys[i], <<S.root>> \o S.subs[r].src.segs)
                                           /\ \A id \in Ids(Reg) : Run.paths[id + 1].res = "ok" => ~RefersTo(Run.paths[id + 1].ty, <<S.root>> \o S.subs[r].src.segs)
